@@ -22,6 +22,9 @@ func ParsePrefix(s string) (Prefix, bool) {
 	ip := []byte(n.IP)
 	if v4 := n.IP.To4(); v4 != nil && len(n.Mask) == 4 {
 		ip = []byte(v4)
+	} else if v4 != nil && ones >= 96 {
+		// an IPv4 prefix written in IPv4-mapped form (::ffff:a.b.c.d/96+n) IS the IPv4 prefix a.b.c.d/n
+		return Prefix{IP: []byte(v4), Bits: ones - 96}, true
 	}
 	return Prefix{IP: ip, Bits: ones}, true
 }
